@@ -1281,8 +1281,8 @@ fn c18(g: &mut Gen) {
         match len {
             1 => for b in 0..256u32 { raws.push(vec![b as u8]); },
             2 => {
-                if thorough { for v in 0..65536u32 { raws.push(vec![(v >> 8) as u8, v as u8]); } }
-                else { for b in 0..256u32 { raws.push(vec![b as u8, g.rng.byte()]); raws.push(vec![g.rng.byte(), b as u8]); } }
+                // every raw value of the 2-byte views, in both tiers (setters: every raw in thorough, 1 in 8 in quick)
+                for v in 0..65536u32 { raws.push(vec![(v >> 8) as u8, v as u8]); }
             }
             _ => {
                 raws.push(vec![0; 4]); raws.push(vec![0xFF; 4]);
@@ -1297,9 +1297,11 @@ fn c18(g: &mut Gen) {
             g.case("field", &cfg, |s, r| {
                 for raw in chunk {
                     s.op(Op::Hdr { what: 0, fld, raw: raw.clone(), v: 0 });
-                    let vs: [u64; 5] = [0, 1, maxv, r.next() & maxv, r.cbyte() as u64 & maxv];
-                    let v = vs[r.below(5) as usize];
-                    s.op(Op::Hdr { what: 1, fld, raw: raw.clone(), v: v as u32 });
+                    if thorough || len != 2 || r.below(8) == 0 {
+                        let vs: [u64; 5] = [0, 1, maxv, r.next() & maxv, r.cbyte() as u64 & maxv];
+                        let v = vs[r.below(5) as usize];
+                        s.op(Op::Hdr { what: 1, fld, raw: raw.clone(), v: v as u32 });
+                    }
                 }
             });
         }
